@@ -119,8 +119,101 @@ PLAN['C18'] = {
     'technique': 'Kani full-domain harnesses (contract = assume pre / assert post) on the real fidget-gui View2/View3, with native replay of counterexamples',
     'level_text': 'Partial: the exact clauses of the property (frame conditions of rotate/zoom, pitch range, changed-flag false on a bit-identical view) are proved for ALL f32 inputs by loop-free Kani harnesses on the real code; the approximate clauses (grabbed point stays under the cursor, matrix = translate x rotate x scale) are float identities that hold only approximately and are not decided.',
     'level_note': 'Trusted: Kani/CBMC/CaDiCaL bit-precise f32 model for comparisons, + - * and clamp (the yaw `%` is modelled nondeterministically by CBMC, so nothing is claimed about the yaw range); nalgebra code is verified as compiled. Not covered: sequences of interactions through Canvas2/Canvas3 (integer screen positions through ImageSize transforms), translate (CBMC does not finish).',
-    'legs': [leg_kani('leaf')],
+    'legs': [leg_kani('leaf'), leg_bounded('view')],
     'explanation': 'Each harness quantifies over every f32 value of centre, scale, yaw, pitch, amount and cursor positions; harness bodies are generic over the input source so that a counterexample is re-executed natively against the real crate before it is reported.',
     'assumptions': ['single-step contracts only: View2/View3 methods, not Canvas event sequences', 'clauses about approximate float identities are not covered'],
 }
 del NOT_APPLICABLE['C18']
+
+
+PLAN['C04'] = {
+    'level': 'proof',
+    'technique': 'contract-based deductive verification (Verus) of VmData::simplify/VmWorkspace on real text, through the proved contract of RegisterAllocator::op; Kani full-domain harnesses for the trace hypothesis; bounded native contract runner for value preservation and JIT traces',
+    'level_text': 'S1 proved unbounded: for every well-formed parent tape, every trace of the right length without Unknown, every register budget M in 3..=255 and any previous workspace contents, simplify cannot panic (all 26 unwrap/assert/panic sites, 11 overflow and 8 index obligations, and the allocator preconditions call by call) and preserves vars and the output count; the hypothesis `a decided choice is valid at every point of the box` is proved for all f32/intervals by Kani. Value preservation (S3) is covered by the bounded contract simplify_sem only until its proof is finished.',
+    'level_note': 'Trusted: Verus+Z3, Kani/CBMC, extractor rewrite rules (R-orpat, R-iter, R-revnext, R-constdefault, ...). Assumed: parent tape is strict SSA (established by SsaTape::new: bounded leg flatten) and choice_count equals the number of choice clauses. Bounded only: S3 value preservation, JIT traces.',
+    'legs': [leg_verus('alloc'), leg_verus('simplify'), leg_kani('leaf'), leg_bounded('simplify_sem'), leg_bounded('jit_trace')],
+    'explanation': 'Loop invariant sinv (P1, COV, INJ, P3, Q of DESIGN.md B.3) over (bind, count, allocator allocations, ops, k) plus the LEN equation ops_out.len + live == outputs + count; one transition lemma per kind of arm (skip, alias, emit with 0/1/2 renamed arguments, output); the 51 arms of the loop body are verified in 13 path-partitioned runs.',
+    'assumptions': ['ssa_strict(parent tape) and choice_count == #choice clauses (SsaTape::new contract, bounded leg of C01)',
+                    'S3 (bit-identical values on the traced domain) is not yet a discharged obligation: bounded contract simplify_sem'],
+    'cex': ['simplify_sem'],
+}
+del NOT_APPLICABLE['C04']
+
+PLAN['C20'] = {
+    'level': 'proof',
+    'technique': 'Kani full-domain harnesses for per-clause choice meaning and Choice bit algebra; Verus contracts for counts carried by simplify; bounded native contract runner for the evaluator loops and JIT traces',
+    'level_text': 'Proved for all inputs (Kani, loop-free): every f32/Interval *_choice result is Left/Right/Both and is what the operand values imply; Both iff tie or NaN for min/max; and/or never Both on points; OR-ing into a cleared slot records exactly the clause choice. The per-tape clauses (one entry per clause, None iff all Both, JIT == VM) are bounded stand-ins because the interpreter loops and emitted code are outside verifier reach.',
+    'level_note': 'Trusted: Kani/CBMC/CaDiCaL. Bounded only: trace length/order in the VM loops, JIT traces, output array shapes.',
+    'legs': [leg_kani('leaf'), leg_verus('simplify'), leg_bounded('interp_point'), leg_bounded('trace_vm'), leg_bounded('jit_trace')],
+    'explanation': 'Per-clause meaning is a complete proof over all 2^64 operand pairs; the tape-level statements are enumerated by the bounded runner.',
+    'assumptions': ['tape-level clauses are bounded stand-ins (interp_point trace check, trace_vm, jit_trace)'],
+}
+del NOT_APPLICABLE['C20']
+
+PLAN['C11'] = {
+    'level': 'proof',
+    'technique': 'Verus total-mode proofs (every assert!/panic!/unwrap/index/overflow in alloc.rs, lru.rs, reg_tape.rs, simplify is an obligation); Kani full-domain totality harnesses for Interval operations; bounded native contract runner for the evaluators',
+    'level_text': 'Proved: the compiler core (register allocation for N in 3..=255, simplify) cannot panic on well-formed tapes; Interval select/round/add/sub/scale operations return normally on ALL valid intervals including infinite bounds and the NaN interval (Kani, complete). The evaluator loops, the remaining Interval arithmetic and the JIT are bounded stand-ins.',
+    'level_note': 'Trusted: Verus+Z3, Kani/CBMC. Not covered: stack exhaustion, allocation failure. Bounded only: interpreter/JIT evaluators on overflow grids, argument-error paths.',
+    'legs': [leg_verus('alloc'), leg_verus('simplify'), leg_kani('leaf'), leg_bounded('interp_interval'), leg_bounded('total'), leg_bounded('jit_interval_valid')],
+    'explanation': 'Totality of the integer state machines is a corollary of their total-mode proofs; the genuine defect found here (Interval add/sub/scale panicking on NaN bounds) is repaired in /repo (fix: 081f714).',
+    'assumptions': ['sqrt/square/recip/mul/div/trig totality of Interval: bounded leg only (CBMC models sqrtf/powi nondeterministically; one f32 division does not finish)'],
+}
+del NOT_APPLICABLE['C11']
+
+PLAN['C03'] = {
+    'level': 'proof',
+    'technique': 'Kani full-domain harnesses for local interval enclosure of comparison/select operations; bounded native contract runner (interval interpreter vs reference point semantics) for arithmetic and transcendental operations',
+    'level_text': 'Proved for all intervals and all member points (Kani, bit-precise, loop-free): min, max, and, or, not, compare, abs, neg enclose the point result, with the NaN-interval convention. Arithmetic and transcendental operations, the interpreter dispatch and the JIT are bounded stand-ins on a stated grid.',
+    'level_note': 'Trusted: Kani/CBMC. Bounded only: add, sub, mul, div, square, sqrt, recip, floor/ceil/round, exp, ln, trig, atan2, rem_euclid, mix, rand; interpreter dispatch; JIT. Out of scope: wgsl shader.',
+    'legs': [leg_kani('leaf'), leg_bounded('interp_interval'), leg_bounded('jit_interval')],
+    'explanation': 'The local obligation per opcode is exactly the observation the property names: a in A, b in B => op(a,b) in OP(A,B) unless NaN.',
+    'assumptions': ['monotonicity of correctly rounded f32 arithmetic and libm functions is exercised on a grid only'],
+}
+del NOT_APPLICABLE['C03']
+
+PLAN['C05'] = {
+    'level': 'other',
+    'technique': 'Kani full-domain harnesses on Grad select operations (value lane equals the point operation, lane uniformity, selected-operand derivative)',
+    'level_text': 'Partial: for min, max, abs, neg the gradient value equals the point value for arbitrary seed lanes, lanes are treated uniformly and the derivative lanes are those of the selected operand (all f32 inputs, Kani). Arithmetic/transcendental derivative rules and the JIT are not decided by a discharged obligation.',
+    'level_note': 'Trusted: Kani/CBMC. Not covered: derivative rules of arithmetic ops (relational float arithmetic is out of CBMC reach), symbolic derivative, JIT gradient evaluator.',
+    'legs': [leg_kani('leaf'), leg_bounded('jit_grad')],
+    'explanation': 'Only comparison/select bodies are tractable for CBMC; the rest is stated as not covered.',
+    'assumptions': ['no error bound on derivative arithmetic is proved'],
+}
+del NOT_APPLICABLE['C05']
+
+
+PLAN['C02'] = {
+    'level': 'exploration',
+    'technique': 'bounded native contract runner: JIT evaluators vs interpreter on enumerated one-op tapes, spill-forcing random tapes and all slice lengths (the emitted machine code is outside verifier reach; stand-in only)',
+    'level_text': 'Bounded stand-in only: the semantics of the JIT lives in bytes emitted through dynasm!, which neither Verus nor Kani can take. Every opcode x operand form x register/stack placement x special-value grid, all slice lengths 0..=4*SIMD+3, 1-3 outputs and seeded deep tapes that force stack spills are compared with the interpreter under the property\'s own equality. A mutation inside a dynasm! block is caught only if this grid reaches it.',
+    'level_note': 'Nothing is proved for this property. Trusted: the interpreter as oracle (itself covered by C01\'s bounded interpreter leg against the reference opcode meaning).',
+    'legs': [leg_bounded('jit_point'), leg_bounded('jit_bulk')],
+    'explanation': 'exploration: enumerated grid + seeded random tapes, see coverage.bounded[*].space for the exact spaces',
+    'assumptions': ['aarch64 back end not exercised (x86_64 host)'],
+}
+del NOT_APPLICABLE['C02']
+
+PLAN['C10'] = {
+    'level': 'proof',
+    'technique': 'contract-based deductive verification (Verus): RegisterAllocator::reset establishes exactly the abstract view of new (`fresh`), simplify\'s contract is independent of the previous workspace/tape contents, the allocator theorem holds from arbitrary initial slot contents; bounded native contract runner for evaluator/storage reuse',
+    'level_text': 'Proved unbounded: reset(size, tape) yields the same complete abstract view as new(size) whatever the allocator held before (allocations, registers, LRU order, spare lists, empty tape, slot_count 0); VmWorkspace::reset likewise; simplify\'s proved postconditions mention neither old(workspace) nor the recycled tape; stale register/memory contents are unobservable because the C01 theorem is quantified over all initial slot contents. Evaluator objects, JIT Mmap reuse and Function::recycle are bounded stand-ins (all ordered pairs of 12 functions x 3 backends x 4 evaluator kinds).',
+    'level_note': 'Trusted: Verus+Z3; assume_specification for slice::fill and mem::take; vstd specs of Vec::resize/clear. Bounded only: TracingVmEval/BulkVmEval::resize_slots, JIT storage growth, RenderHandle.',
+    'legs': [leg_verus('alloc'), leg_verus('simplify'), leg_bounded('reuse')],
+    'explanation': 'reset == new on the view is the postcondition `fresh(size)` shared by both functions; see units/alloc/spec.py',
+    'assumptions': ['evaluator-object reuse is enumerated, not proved'],
+    'cex': ['reuse'],
+}
+del NOT_APPLICABLE['C10']
+
+PLAN['C15'] = {
+    'level': 'exploration',
+    'technique': 'bounded native contract runner with an independent decoder/interpreter written from the bytecode module documentation; register/memory operand bounds of every emitted RegOp proved in Verus (allocator invariant I6)',
+    'level_text': 'Bounded stand-in for Bytecode::new (a loop with a closure capturing two &mut locals and a HashMap: outside Verus; Kani runs out of memory): every opcode form x registers {0,1,N-1} x memory slots x immediates, 1- and 2-op tapes, plus seeded compiled expressions with budgets 3/4/12; markers, opcode table, operand layout, 0xFF immediate flag, counts bounding every index, decoded program == interpreter bitwise. Proved (Verus, C01 unit): every register operand < N <= 255 and every memory operand in N..slot_count, so the reserved register never appears for N <= 255 and slot arithmetic cannot underflow.',
+    'level_note': 'The deciding function Bytecode::new is only explored, hence level exploration. Trusted: the decoder\'s reading of the documented format.',
+    'legs': [leg_bounded('bytecode'), leg_verus('alloc')],
+    'explanation': 'exploration with a proved side condition (operand ranges)',
+    'assumptions': ['Input/Output operand layout is the decoder\'s reading of the docs'],
+}
+del NOT_APPLICABLE['C15']
